@@ -1,6 +1,34 @@
-CLAIMED["C12"] = (
-    "property-based testing (proptest): differential against a reference DP + script applier + metamorphic laws",
-    "Generated pairs of strings over dense alphabets (whitespace, multi-byte, multi-code-point clusters) x all 8 flag combinations; distance, normalised distance, prefix distance, distances() and the operations() script are compared with an independent suffix-recursive reference (validated by BFS at start-up). Exploration: no counterexample in N cases, N and the class histogram are in the evidence.",
-    "Trusts unicode-segmentation for cluster boundaries and the reference DP (self-tested). Strings <= 40 characters. KF5 (normalised distance > 1 under spaces_insert_delete_only) is a recorded known finding; its class is excluded from the range assertion only.",
-    "DESIGN.md section 5, C12",
-)
+PBT = "property-based testing (proptest, generated inputs vs. explicit oracle)"
+def claim(i, tech, text, note):
+    CLAIMED[i] = (tech, text, note, f"DESIGN.md section 5, {i}")
+
+claim("C01", PBT + ": independent special-token scanner + UTF-8 bytes, round trip",
+  "Generated Unicode texts (incl. the case's own special-token spellings and look-alikes) x byte/char tokenizer configs x special configs; ids are compared with an independent leftmost scanner and the decode round trip is checked. Exploration: no counterexample in N generated cases.",
+  "Special-token sets are prefix-free with tokens >= 2 bytes (otherwise the parse is ambiguous by construction of the regex); cluster boundaries from unicode-segmentation; texts <= ~120 bytes.")
+claim("C02", PBT + ": decode(encode) round trip + table-derived byte strings",
+  "Generated well-formed merge tables x texts with whitespace structure x max_vocab_size x special configs; losslessness modulo trailing whitespace, id range and UTF-8 validity are checked against the table itself.",
+  "Tables <= 48 merges over small alphabets; max_vocab_size semantics as documented in the constructor.")
+claim("C03", PBT + ": differential against a naive reference BPE",
+  "Generated tables with chains/competing merges x words over the table alphabet; token ids must equal a quadratic rescanning reference (lowest id, leftmost).",
+  "Reference BPE and the `\\s+\\S+|^\\S+` scanner are written from the statement; tables <= 32 merges, tokens <= 12 bytes.")
+claim("C04", PBT + ": cross-consistency of the vocabulary maps + independent id layout",
+  "All tokenizer kinds x special configs x truncation; every id in [0, vocab_size+300) and u32::MAX is queried and get_vocab / id_to_token / token_to_id / de_tokenize must agree with each other and with the expected id layout.",
+  "Generated special tokens never collide with regular tokens; char vocabulary asserted as a set.")
+claim("C07", PBT + ": exact sequence models (sequential, round-robin), multiset/order/determinism (weighted), step-bounded termination + watchdog",
+  "Generated source-length vectors x strategy x seed; drained with a step bound, compared with exact models; a call that never returns is detected by the shard watchdog, confirmed in a fresh process and reported as a violation (the property claims termination).",
+  "In-memory sources with exact declared lengths; 20 s without progress inside a microsecond computation counts as non-termination after confirmation.")
+claim("C12", PBT + ": differential against a reference DP + script applier + metamorphic laws",
+  "Generated pairs over dense alphabets x all flag combinations; distance, normalised distance, prefix distance, distances() and the operations() script are compared with an independent suffix-recursive reference (validated by BFS at start-up).",
+  "Trusts unicode-segmentation for cluster boundaries; strings <= 40 characters. KF5 (normalised distance > 1 under spaces_insert_delete_only) is a recorded known finding; its class is excluded from the upper range assertion only.")
+claim("C13", PBT + ": range/totality, calibration laws via reference LCS, reference whitespace-operation sets, aggregation laws, defining formulas",
+  "Four generated families (word-level corruption triples, whitespace-variant triples, arbitrary Unicode triples, vectors/lists for the simple metrics) x beta x averaging x mode x graphemes.",
+  "The metrics' own normalisation is taken from the crate's public clean()/normalize(); float tolerance 1e-9; grapheme-mode calibration only on segmentation-stable texts (KF3).")
+claim("C15", PBT + ": existential single-edit explanation oracle over edit chains",
+  "Generated words x edit-kind subsets x real context tables (or mock providers) x predicates x exclusion sets x seeds x chains; every step must be explained by exactly one enabled edit that reproduces the new word and the new exclusion set; panics (overflow checks on) are failures.",
+  "Grapheme mode restricted to closed-pool clusters (KF4); overflow-checks = true as in cargo test.")
+claim("C19", PBT + ": replay with full recount (validity predicate, ties explored) + tokenizer consistency",
+  "Generated small corpora x vocab sizes x special counts x normalisation x threads; the written table must have ids 0..n-1, every merge must be a positive, maximal-frequency adjacent pair under a from-scratch recount, early stop only on exhaustion.",
+  "Line->word map via the crate's clean()/normalize(); ties explored depth-first with a node budget (exhaustion is never an alarm).")
+claim("C20", PBT + ": sequential recount, top-k validity predicate, cross-thread equality, save/load round trip, closest-entry predicate",
+  "Generated corpora x max_size x max_sequences x threads x modes x queries.",
+  "General profile uses the crate's split_words() for the line->token map; the plain profile is fully independent.")
